@@ -128,4 +128,14 @@ CHECKS = {
           "is checked by the oracle for the instruments it uses, not for all 128 names. Channel-allocation facts are examples + correspondence, "
           "not a theorem; more than 15 programs (channel overflow) is not explored.",
  },
+ "C14": {
+  "text": "Theorems: for EVERY chord and EVERY pitch in Z, Chord.parse then Chord.to_pitch is the identity, the result is a scale note "
+          "iff the pitch class is in the chord scale, with a normalised value; for a monophonic voice the melody _parse_voice writes for a "
+          "bar lasts exactly the bar whatever tie comes in or goes out. The whole import (bar loop, tie dictionary, voices holding a note "
+          "through a bar, silent bars) is modelled and tied by correspondence; the losslessness clause (rendering the result reproduces "
+          "every input note's pitch, onset, duration across any number of bar lines, velocity) is evaluated on the implementation by the "
+          "oracle. Two import defects (stale tie, held note cut at the bar line) were repaired in /repo.",
+  "note": "Trusted: Coq kernel; adapters; set iteration order of voices. Items are built directly (the MIDI-file front end is not installed). "
+          "The end-to-end losslessness of infer_score_with_chords_durations is not a theorem (oracle + correspondence, 1200 cases/run).",
+ },
 }
